@@ -311,7 +311,14 @@ func oblTerm(o *Obligation) string { return sImp(o.Reach, o.Goal) }
 // query: the obligations are checked in program order; obligation k may use
 // exactly the assumptions made before it. For a batch this is encoded as
 //   A(<o1) and not( G1 and (A[o1,o2) => G2) and (A[o1,o3) => G3) ... )
-func (g *Gen) query(obls []*Obligation, qf bool) string {
+func (g *Gen) query(obls []*Obligation, qf bool) string { return g.queryOpt(obls, qf, false) }
+
+// queryOpt: with sliced=true only assumptions in the goal's cone of influence are kept
+// (single obligation only).
+func (g *Gen) queryOpt(obls []*Obligation, qf bool, sliced bool) string {
+	if sliced && len(obls) == 1 {
+		return g.slicedQuery(obls[0], qf)
+	}
 	sorted := append([]*Obligation{}, obls...)
 	sort.SliceStable(sorted, func(i, j int) bool { return sorted[i].Seq < sorted[j].Seq })
 	first := sorted[0].Seq
@@ -349,6 +356,38 @@ func (g *Gen) query(obls []*Obligation, qf bool) string {
 		gs = append(gs, sImp(prefix, goal))
 	}
 	sb.WriteString("(assert (not " + sAnd(gs...) + "))\n(check-sat)\n")
+	return sb.String()
+}
+
+func (g *Gen) slicedQuery(o *Obligation, qf bool) string {
+	if g.slicer == nil {
+		g.slicer = g.newSlicer()
+	}
+	var texts []string
+	for _, a := range g.asms {
+		if a.seq >= o.Seq || (qf && isQuantified(a.text)) {
+			continue
+		}
+		texts = append(texts, a.text)
+	}
+	if o.Origin != "" {
+		for _, a := range g.privAsms[o.Origin] {
+			if a.seq < o.Seq && !(qf && isQuantified(a.text)) {
+				texts = append(texts, a.text)
+			}
+		}
+	}
+	goal := oblTerm(o)
+	keep := g.slicer.relevant([]string{goal}, texts)
+	var sb strings.Builder
+	sb.WriteString(g.prelude(qf))
+	sb.WriteString(g.declsText())
+	for i, t := range texts {
+		if keep[i] {
+			sb.WriteString("(assert " + t + ")\n")
+		}
+	}
+	sb.WriteString("(assert (not " + goal + "))\n(check-sat)\n")
 	return sb.String()
 }
 
@@ -507,6 +546,26 @@ func (ur *UnitResult) discharge(opt Options) {
 
 func (ur *UnitResult) solveOne(r *OblResult, opt Options, write func(hint, text string) string) {
 	g := ur.gen
+	// stage 0: quantifier-free and sliced to the goal's cone of influence (only "unsat" is trusted)
+	file0 := write(r.Name+"_sliced", g.queryOpt([]*Obligation{r.obl}, true, true))
+	ans0, all0 := race(file0, opt.TimeoutMs, opt.Agree, opt.Solvers)
+	if ans0.Status == "unsat" {
+		r.Stage, r.Solver, r.TimeS, r.Status = "qf-sliced", ans0.Solver, ans0.TimeS, "proved"
+		n := 0
+		for _, a := range all0 {
+			if a.Status == "unsat" {
+				n++
+			}
+		}
+		r.Agree = n
+		if !opt.KeepSMT {
+			os.Remove(file0)
+		}
+		return
+	}
+	if !opt.KeepSMT {
+		os.Remove(file0)
+	}
 	// stage 1: quantifier-free (quantified hypotheses dropped, their ground instances kept)
 	file := write(r.Name, g.query([]*Obligation{r.obl}, true))
 	ans, all := race(file, opt.TimeoutMs, opt.Agree, opt.Solvers)
